@@ -27,7 +27,7 @@ func VerdictDependence(p *core.Program, r *core.Report, rule string) {
 		sig := fd.Obj.Type().(*types.Signature)
 		var protoParam, portParam *types.Var
 		for j := 0; j < sig.Params().Len(); j++ {
-			switch sig.Params().At(j).Name() {
+			switch core.RefName(sig.Params().At(j)) {
 			case "protocol":
 				protoParam = sig.Params().At(j)
 			case "port":
@@ -126,7 +126,7 @@ func AlwaysAllowedParity(p *core.Program, r *core.Report, rule string) {
 		if fn == nil {
 			return false
 		}
-		switch fn.Name() {
+		switch core.RefName(fn) {
 		case "hasConnectionResult", "allowedXgressConnection", "allAllowedXgressConnections", "getConnectionResult":
 			return p.IsModuleFunc(fn)
 		}
@@ -233,7 +233,7 @@ func AlwaysAllowedParity(p *core.Program, r *core.Report, rule string) {
 				return true
 			}
 			if c, ok := ast.Unparen(e).(*ast.CallExpr); ok {
-				if fn := core.Callee(info, c); fn != nil && fn.Name() == "MakeConnectionSet" && len(c.Args) == 1 {
+				if fn := core.Callee(info, c); fn != nil && core.RefName(fn) == "MakeConnectionSet" && len(c.Args) == 1 {
 					if v, ok := core.ConstString(info, c.Args[0]); ok && v == "true" {
 						return true
 					}
@@ -303,7 +303,7 @@ func AlwaysAllowedParity(p *core.Program, r *core.Report, rule string) {
 		for _, cf := range w.AtCalls {
 			for _, a := range gAtoms {
 				if !facts.Entails(cf.F, facts.MkNot(facts.Atom(a))) && late == "" {
-					late = core.Callee(info, cf.Call).Name() + " at " + p.Pos(cf.Call.Pos()) + " can run while " + facts.StripVersions(a) + " holds"
+					late = core.RefName(core.Callee(info, cf.Call)) + " at " + p.Pos(cf.Call.Pos()) + " can run while " + facts.StripVersions(a) + " holds"
 				}
 			}
 		}
